@@ -123,7 +123,7 @@ func (findScen) Exec(w *World, cc any, prop string) *Result {
 	below := c.Stop >= 0 && c.Stop <= c.Start // start is at or below stop
 	want := ""
 	var loose []string // also acceptable when start is not below stop (specification silent)
-	if !c.Gone {
+	{
 		for lvl := c.Start; lvl >= 0; lvl-- {
 			strictAncestorOfStop := c.Stop >= 0 && lvl < c.Stop
 			if c.Levels[lvl].Spok == "file" {
@@ -151,10 +151,20 @@ func (findScen) Exec(w *World, cc any, prop string) *Result {
 			outcome = "budget"
 			res.violate("C17", "terminates", sig, "%s: more than %d directory reads for a start directory %d levels deep: the search does not terminate (start=%s stop=%s)", how, budget, budget-2, rel(w, start), rel(w, stop))
 		case c.Gone:
+			// the start directory does not exist (ReadDir fails): an error is fine, and so is carrying on
+			// from its parent; what is never fine is a wrong path (or not terminating, checked above)
 			outcome = "gone"
 			res.count("fault_fired:readdir_error")
-			if err == nil {
-				res.violate("C17", "unreadable-start-is-an-error", sig, "%s: the start directory does not exist, yet %q was returned", how, rel(w, got))
+			if err == nil && got != want {
+				accepted := false
+				for _, l := range loose {
+					if got == l {
+						accepted = true
+					}
+				}
+				if !accepted {
+					res.violate("C17", "nearest-enclosing-spokfile", sig, "%s: the start directory does not exist; %q was returned, the nearest spokfile above it is %q", how, rel(w, got), rel(w, want))
+				}
 			}
 		case err == nil && got == want:
 			outcome = "found"
